@@ -24,7 +24,7 @@ inductive Item where
   | sect (name : Bytes)
   | kv (key val : Bytes)
   | incl (file : Bytes)
-  deriving Repr, DecidableEq, BEq
+  deriving Repr, DecidableEq
 
 def trimRight (s : Bytes) : Bytes := (s.reverse.dropWhile isSpace).reverse
 
